@@ -7,6 +7,7 @@ import (
 	"bytes"
 	"encoding/json"
 	"fmt"
+	"reflect"
 	"regexp"
 	"sort"
 	"strconv"
@@ -158,7 +159,19 @@ var colType = map[string]string{
 	"BorderStyle": "int", "Alignment": "int", "MarginL": "int", "MarginR": "int", "MarginV": "int", "Encoding": "int",
 }
 var evType = map[string]string{"Layer": "int", "Marked": "marked", "Style": "style", "Name": "voice", "MarginL": "int", "MarginR": "int", "MarginV": "int", "Effect": "effect"}
-var infoType = map[string]string{"Title": "title", "PlayResX": "int", "Timer": "float", "Collisions": "coll"}
+
+// every script-info field the library carries (ScriptType is the document's plus flag)
+var infoType = map[string]string{"Title": "title", "PlayResX": "int", "PlayResY": "int", "PlayDepth": "int", "Timer": "float", "Collisions": "coll",
+	"WrapStyle": "wrap", "Original Script": "str", "Original Translation": "str", "Original Editing": "str", "Original Timing": "str",
+	"Synch Point": "str", "Script Updated By": "str", "Update Details": "str"}
+
+// Metadata field of a script-info key
+var infoField = map[string]string{"Title": "Title", "PlayResX": "SSAPlayResX", "PlayResY": "SSAPlayResY", "PlayDepth": "SSAPlayDepth", "Timer": "SSATimer",
+	"Collisions": "SSACollisions", "WrapStyle": "SSAWrapStyle", "Original Script": "SSAOriginalScript", "Original Translation": "SSAOriginalTranslation",
+	"Original Editing": "SSAOriginalEditing", "Original Timing": "SSAOriginalTiming", "Synch Point": "SSASynchPoint",
+	"Script Updated By": "SSAScriptUpdatedBy", "Update Details": "SSAUpdateDetails"}
+
+var strs = map[int]string{1: "Someone, somewhere", 2: "another: value"}
 
 var (
 	names   = map[int]string{1: "Main", 2: "Alt style", 3: "Third"}
@@ -169,7 +182,7 @@ var (
 	voices  = map[int]string{1: "Cher"}
 	effects = map[int]string{1: "Scroll up;100;0"}
 	titles  = map[int]string{1: "My title", 2: "Other: with colon"}
-	colls   = map[int]string{1: "Normal"}
+	colls   = map[int]string{1: "Normal", 2: "Reverse"}
 	notes   = map[int]string{1: "first comment", 2: "second; comment: x", 3: "Data: 0,e,payload of an unknown section"}
 	fxs     = map[int]string{1: `{\i1}`, 2: `{\pos(400,570)}`}
 )
@@ -229,8 +242,10 @@ func cell(typ string, v int, d Doc, p Pool) string {
 			return "-1"
 		}
 		return "0"
-	case "int":
+	case "int", "wrap":
 		return strconv.Itoa(v)
+	case "str":
+		return strs[v]
 	case "marked":
 		return "Marked=" + strconv.Itoa(v)
 	case "voice":
@@ -271,7 +286,7 @@ func parseCell(typ, s string) int {
 		if s == "" {
 			return 0
 		}
-		f, err := strconv.ParseFloat(s, 64)
+		f, err := strconv.ParseFloat(strings.Replace(s, ",", ".", 1), 64) // the Timer field may use a decimal comma
 		if err != nil {
 			return -1
 		}
@@ -345,6 +360,14 @@ func parseCell(typ, s string) int {
 		return revS(titles, s)
 	case "coll":
 		return revS(colls, s)
+	case "str":
+		return revS(strs, s)
+	case "wrap":
+		v, err := strconv.Atoi(s)
+		if err != nil {
+			return -1
+		}
+		return v
 	}
 	return -1
 }
@@ -599,15 +622,20 @@ func Build(g Truth, p Pool) *astisub.Subtitles {
 		m.SSAScriptType = "v4.00+"
 	}
 	for k, v := range g.Info {
-		switch k {
-		case "Title":
-			m.Title = titles[v]
-		case "PlayResX":
-			m.SSAPlayResX = ip(v)
-		case "Timer":
-			m.SSATimer = fp(floats[v])
-		case "Collisions":
-			m.SSACollisions = colls[v]
+		f := reflect.ValueOf(m).Elem().FieldByName(infoField[k])
+		switch infoType[k] {
+		case "title":
+			f.SetString(titles[v])
+		case "int":
+			f.Set(reflect.ValueOf(ip(v)))
+		case "float":
+			f.Set(reflect.ValueOf(fp(floats[v])))
+		case "coll":
+			f.SetString(colls[v])
+		case "str":
+			f.SetString(strs[v])
+		case "wrap":
+			f.SetString(strconv.Itoa(v))
 		}
 	}
 	for _, n := range g.Notes {
@@ -769,15 +797,28 @@ func Project(s *astisub.Subtitles, p Pool) Truth {
 	}
 	if m := s.Metadata; m != nil {
 		g.Plus = m.SSAScriptType == "v4.00+"
-		if m.Title != "" {
-			g.Info["Title"] = revS(titles, m.Title)
-		}
-		if m.SSAPlayResX != nil {
-			setNZ(g.Info, "PlayResX", *m.SSAPlayResX)
-		}
-		setNZ(g.Info, "Timer", revF(m.SSATimer))
-		if m.SSACollisions != "" {
-			g.Info["Collisions"] = revS(colls, m.SSACollisions)
+		for k, typ := range infoType {
+			f := reflect.ValueOf(m).Elem().FieldByName(infoField[k])
+			switch typ {
+			case "title", "coll", "str":
+				if f.String() != "" {
+					g.Info[k] = revS(map[string]map[int]string{"title": titles, "coll": colls, "str": strs}[typ], f.String())
+				}
+			case "wrap":
+				if f.String() != "" {
+					v, err := strconv.Atoi(f.String())
+					if err != nil {
+						v = -1
+					}
+					setNZ(g.Info, k, v)
+				}
+			case "int":
+				if !f.IsNil() {
+					setNZ(g.Info, k, int(f.Elem().Int()))
+				}
+			case "float":
+				setNZ(g.Info, k, revF(m.SSATimer))
+			}
 		}
 		for _, c := range m.Comments {
 			g.Notes = append(g.Notes, revS(notes, c))
